@@ -246,6 +246,8 @@ class SourceSys:
         if self.kind != "stdin":
             ops += [("read", None), ("read", -1)]
         ops += [("open",), ("close",), ("is_open",)]
+        if not self.open:
+            ops += [("read", 0)]  # what read(0) means on an open source is left open; on a closed one it is an I/O error
         if self.kind == "buffer":
             ops += [("rewind",), ("get_pos",), ("get_pos_s",), ("get_pos_ms",)]
             for p in range(-n - 1, n + 2):
@@ -525,7 +527,7 @@ def loaders_large(rep, quick):
                 path = os.path.join(d, "big_%d%s%s" % (os.getpid(), "." if ext != "x.wav" else "_", ext))
                 _write(path, data, sw, ch)
                 for lazy in (False, True):
-                    for how in ("all", "chunks"):
+                    for how in ("all", "chunks", "chunks1000"):
                         rep.add("evaluations")
                         rep.add("large_rows_not_exhaustive")
                         rep.add("distinct_nontrivial")
@@ -538,14 +540,22 @@ def loaders_large(rep, quick):
                                 tail = src.read(1)
                             else:
                                 parts = []
+                                step = 65536 if how == "chunks" else 1000  # 1000 divides no power of two
+                                short = None
                                 while True:
-                                    b = src.read(65536)
+                                    b = src.read(step)
                                     if b is None:
                                         break
-                                    if len(b) == 0 or len(parts) > 40:
+                                    if len(b) == 0 or len(parts) > n // step + 3:
                                         parts.append(b"?")
                                         break
+                                    if short is not None:
+                                        short = -1  # a short chunk was followed by more data
+                                    elif len(b) != step * sw * ch:
+                                        short = len(parts)
                                     parts.append(b)
+                                if short == -1:
+                                    parts.append(b"?short chunk in the middle")
                                 got = b"".join(parts)
                                 tail = src.read(1)
                             src.close()
@@ -645,6 +655,46 @@ def fifo_lazy(rep):
                         rep.violation("fifo-lazy n=%d sw=%d ch=%d chunks=%r reads=%r" % (n, sw, ch, chunks, sizes),
                                       "lazy raw source on a named pipe delivering %r-byte pieces (%d-byte samples): %s" % (chunks, bps, msg), {"kind": "fifolazy"})
                         return
+
+
+def alias_table(rep):
+    """Sources built from keyword arguments: a short alias alone works, and when both spellings are given the long
+    name wins - whichever was written first."""
+    aio = lib()["io"]
+    data = content(12, 1, 1)
+    d = common.scratch_dir()
+    rawp = os.path.join(d, "alias_%d.raw" % os.getpid())
+    with open(rawp, "wb") as fp:
+        fp.write(data)
+    longs = dict(sampling_rate=10, sample_width=2, channels=2)
+    shorts_wrong = dict(sr=20, sw=1, ch=1)
+    shorts_right = dict(sr=10, sw=2, ch=2)
+    cases = [("short only", dict(shorts_right)), ("long only", dict(longs)), ("long first", {**longs, **shorts_wrong}),
+             ("short first", {**shorts_wrong, **longs}), ("interleaved", dict(sr=20, sampling_rate=10, sample_width=2, sw=1, ch=1, channels=2))]
+    for name, kw in cases:
+        for kind in ("bytes", "raw", "raw_lazy", "stdin"):
+            rep.add("evaluations")
+            old = sys.stdin
+            try:
+                if kind == "bytes":
+                    src = aio.get_audio_source(data, **kw)
+                elif kind == "stdin":
+                    sys.stdin = FakeStdin(data)
+                    src = aio.get_audio_source("-", **kw)
+                else:
+                    src = aio.get_audio_source(rawp, audio_format="raw", large_file=(kind == "raw_lazy"), **kw)
+                src.open()
+                got = (src.sampling_rate, src.sample_width, src.channels, src.read(2))
+                src.close()
+                msg = None if got == (10, 2, 2, data[:8]) else "source is (%r Hz, %r bytes, %r channels), read(2) gives %r" % got
+            except Exception as exc:
+                msg = "raised %r" % (exc,)
+            finally:
+                sys.stdin = old
+            if msg:
+                rep.violation("alias %s %s" % (name, kind), "get_audio_source(%s, %s) [%s]: %s; the long names say 10 Hz, 2 bytes, 2 channels" % (
+                    kind, ", ".join("%s=%r" % kv for kv in kw.items()), name, msg), {"kind": "alias"})
+    os.unlink(rawp)
 
 
 def fifo_loads(rep):
@@ -772,6 +822,7 @@ def run(prop, tier):
     loaders_large(rep, quick)
     fifo_loads(rep)
     fifo_lazy(rep)
+    alias_table(rep)
     rewritten_files(rep)
     for part in common.pmap(work, tasks):
         rep.merge(part)
@@ -782,6 +833,10 @@ def run(prop, tier):
 
 def replay(case):
     lib()
+    if case.get("kind") == "alias":
+        rep = common.Report("C11", "quick", "")
+        alias_table(rep)
+        return rep.violations[0][1] if rep.violations else None
     if case.get("kind") == "fifolazy":
         rep = common.Report("C11", "quick", "")
         fifo_lazy(rep)
